@@ -156,7 +156,9 @@ M_C07(pre, a, obs, post) ==
       \cup If(newRow /\ u # actor /\ ~IsAdmin(actorMode) => M(gPost.given) = M(pre.topics[t].auth) \cup {"J"}, "SharerInvitesWithDefaultOnly")
       \* resubscribing restores the previous grant
       \cup If(newRow /\ u = actor /\ gPre.st = "del" => gPost.given = gPre.given, "ResubscribeRestoresGrant")
-      \cup If(newRow /\ u = actor /\ gPre.st = "none" /\ Live(pre, t) => gPost.given = pre.topics[t].auth, "FirstSubscriptionGetsDefaultGrant")
+      \* (root-level users get the built-in default JRWPS instead of the topic's: selectAccessMode's rootMode)
+      \cup If(newRow /\ u = actor /\ gPre.st = "none" /\ Live(pre, t) /\ u \notin {SessUser[x] : x \in RootSessions}
+              => gPost.given = pre.topics[t].auth, "FirstSubscriptionGetsDefaultGrant")
       : uu \in Users }
     \cup If(Live(post, t) => Cardinality({u \in Users : post.subs[t][u].st = "live"}) <= MaxSubs, "SubscriberLimit")
     \cup If(post.cache[t].loaded => \A x \in AttOf(post.cache[t]) : x.chan \/ "J" \in M(post.cache[t].per[x.u].given), "NoAttachWithoutJoinGrant")
